@@ -7,8 +7,13 @@ static MemDev cdev ;
 #define NFR 23
 typedef struct { char id [72] ; unsigned len ; unsigned char *data ; } Ck ;
 
-static const int majors [5] = { SF_FORMAT_WAV, SF_FORMAT_WAVEX, SF_FORMAT_RF64, SF_FORMAT_AIFF, SF_FORMAT_CAF } ;
-static const char *mnames [5] = { "wav", "wavex", "rf64", "aiff", "caf" } ;
+#define NMAJ 8
+static const int majors [NMAJ] = { SF_FORMAT_WAV, SF_FORMAT_WAVEX, SF_FORMAT_RF64, SF_FORMAT_AIFF, SF_FORMAT_CAF,
+	SF_FORMAT_WAV | SF_ENDIAN_BIG, SF_FORMAT_AIFF | SF_ENDIAN_LITTLE, SF_FORMAT_CAF | SF_ENDIAN_LITTLE } ;	/* and the non-default byte orders */
+static const char *mnames [NMAJ] = { "wav", "wavex", "rf64", "aiff", "caf", "rifx", "aifc-le", "caf-le" } ;
+
+static int c13_sub = SF_FORMAT_PCM_16 ;	/* the thorough tier also walks other sample formats (PEAK / fact chunks next to the custom ones) */
+static short c13_ref [NFR * 2] ; static int c13_ref_key = -1 ;
 
 static short *audio (void) { static short buf [NFR * 2] ; for (int i = 0 ; i < NFR * 2 ; i++) buf [i] = (short) (i * 1021 + 5) ; return buf ; }
 
@@ -54,7 +59,16 @@ static int fetch (SF_CHUNK_ITERATOR *it, unsigned *size, unsigned char **data, l
 static void chunk_case (int mi, Ck *cks, int nck, int interleave, int late, int bufmode, const char *family)
 {	SF_INFO info ; SNDFILE *sf ; char rs [48] ; int rc, accepted [256], nacc = 0 ; static short got [NFR * 2] ;
 	snprintf (rs, sizeof (rs), "%s|%s", mnames [mi], family) ;
-	md_reset (&cdev) ; memset (&info, 0, sizeof (info)) ; info.format = majors [mi] | SF_FORMAT_PCM_16 ; info.channels = 2 ; info.samplerate = 44100 ;
+	md_reset (&cdev) ; memset (&info, 0, sizeof (info)) ; info.format = majors [mi] | c13_sub ; info.channels = 2 ; info.samplerate = 44100 ;
+	if (c13_ref_key != (majors [mi] | c13_sub))
+	{	/* what the same audio reads back as from a file without custom chunks (lossy codecs): the differential reference */
+		SF_INFO ri = info ; SNDFILE *r = md_open (&cdev, SFM_WRITE, &ri) ;
+		if (! r) { vl_note ("open refused") ; return ; }
+		vl_write (r, T_SHORT, 1, audio (), NFR) ; INLIB (sf_close (r)) ;
+		md_rewind (&cdev) ; memset (&ri, 0, sizeof (ri)) ; r = md_open (&cdev, SFM_READ, &ri) ;
+		if (! r || vl_read (r, T_SHORT, 1, c13_ref, NFR) != NFR) { vl_violation (rt_sig ("%s|reference-unreadable", rs), "the file without custom chunks does not read back") ; if (r) INLIB (sf_close (r)) ; return ; }
+		INLIB (sf_close (r)) ; c13_ref_key = majors [mi] | c13_sub ; md_reset (&cdev) ;
+		}
 	sf = md_open (&cdev, SFM_WRITE, &info) ;
 	if (! sf) { vl_note ("open refused") ; return ; }
 	if (interleave & 1) INLIB (sf_set_string (sf, SF_STR_TITLE, "before chunks")) ;
@@ -75,7 +89,7 @@ static void chunk_case (int mi, Ck *cks, int nck, int interleave, int late, int 
 	md_rewind (&cdev) ; memset (&info, 0, sizeof (info)) ;
 	sf = md_open (&cdev, SFM_READ, &info) ;
 	if (! sf) { vl_violation (rt_sig ("%s|reopen-failed", rs), "%s", sf_strerror (NULL)) ; return ; }
-	if (info.frames != NFR || vl_read (sf, T_SHORT, 1, got, NFR) != NFR || memcmp (got, audio (), sizeof (got)) != 0)
+	if (info.frames != NFR || vl_read (sf, T_SHORT, 1, got, NFR) != NFR || memcmp (got, c13_ref, sizeof (got)) != 0)
 		vl_violation (rt_sig ("%s|audio-damaged%s", rs, late ? "-late" : ""), "audio differs after re-open (frames %lld)", (long long) info.frames) ;
 	if ((interleave & 1))
 	{	const char *t ; INLIB (t = sf_get_string (sf, SF_STR_TITLE)) ;
@@ -141,7 +155,7 @@ void run_c13 (void)
 {	static const unsigned plens [13] = { 0, 1, 2, 3, 4, 5, 7, 8, 255, 256, 257, 65535, 65536 } ; static const int pcounts [3] = { 1, 3, 21 } ;
 	static const char *idsets [][4] = { { "a", "bb", "ccc", "dddd" }, { "dupl", "dupl", "dupl", "uniq" }, { "data", "fmt ", "LIST", "SSND" }, { "COMM", "desc", "FORM", "junk" }, { "longerid", "evenlongerchunkid", "x", "longerid" } } ;
 	md_init (&cdev) ;
-	for (int mi = 0 ; mi < 5 ; mi++)
+	for (int mi = 0 ; mi < NMAJ ; mi++)
 	{	/* every count 0..200 */
 		for (int n = 0 ; n <= 200 ; n++)
 			if (vl_case ("C13 count fmt=%s n=%d", mnames [mi], n))
@@ -178,6 +192,31 @@ void run_c13 (void)
 				if (vl_case ("C13 getbuf fmt=%s bufmode=%ld len=%u", mnames [mi], modes [bm], plens [pl]))
 				{	Ck cks [3] ; for (int i = 0 ; i < 3 ; i++) { char id [8] ; snprintf (id, sizeof (id), "g%03d", i) ; ck_make (&cks [i], id, plens [pl], i) ; }
 					vl_root_count (mnames [mi]) ; chunk_case (mi, cks, 3, 0, 0, modes [bm], "getbuf") ; free_cks (cks, 3) ; vl_end (1, bm) ;
+					}
+			}
+		if (! vl_opts.thorough) continue ;
+		/* thorough: every payload length 0..520 (every alignment, both sides of 256 and 512) x 4 sample formats x {1,3} chunks */
+		{	static const int subs [4] = { SF_FORMAT_PCM_16, SF_FORMAT_FLOAT, SF_FORMAT_ULAW, SF_FORMAT_PCM_24 } ; static const char *sn [4] = { "pcm16", "float", "ulaw", "pcm24" } ;
+			for (int si = 0 ; si < 4 ; si++) for (unsigned len = 0 ; len <= 520 ; len++) for (int n = 1 ; n <= 3 ; n += 2)
+				if (vl_case ("C13 T-payload fmt=%s sub=%s len=%u count=%d", mnames [mi], sn [si], len, n))
+				{	Ck cks [3] ; for (int i = 0 ; i < n ; i++) { char id [8] ; snprintf (id, sizeof (id), "t%03d", i) ; ck_make (&cks [i], id, len, i + len) ; }
+					c13_sub = subs [si] ; vl_root_count (mnames [mi]) ; chunk_case (mi, cks, n, 0, 0, -1, "payload") ; c13_sub = SF_FORMAT_PCM_16 ; free_cks (cks, n) ; vl_end (1, si * 1000 + len) ;
+					}
+			}
+		/* thorough: chunks of two different lengths next to each other (A, B, A), all ordered pairs of the length alphabet below 64 KiB */
+		for (int pa = 0 ; pa < 11 ; pa++) for (int pb = 0 ; pb < 11 ; pb++)
+			if (vl_case ("C13 T-mixed fmt=%s lenA=%u lenB=%u", mnames [mi], plens [pa], plens [pb]))
+			{	Ck cks [3] ; ck_make (&cks [0], "mixA", plens [pa], pa) ; ck_make (&cks [1], "mixB", plens [pb], pb + 50) ; ck_make (&cks [2], "mixA", plens [pa], pa + 100) ;
+				vl_root_count (mnames [mi]) ; chunk_case (mi, cks, 3, 0, 0, -1, "mixed") ; free_cks (cks, 3) ; vl_end (1, pa * 11 + pb) ;
+				}
+		/* thorough: total header size: many chunks of a moderate size (the header buffer grows while the chunks are written;
+		** it doubles up to 64 KiB and is then refused, and CAF pads the header to the next 4 KiB: 60000 bytes of chunks is where that cap is met) */
+		{	static const int tcounts [4] = { 21, 60, 100, 200 } ; static const unsigned tlens [6] = { 64, 129, 256, 512, 1024, 4096 } ;
+			for (int tc = 0 ; tc < 4 ; tc++) for (int tl = 0 ; tl < 6 ; tl++)
+				if (vl_case ("C13 T-total fmt=%s count=%d len=%u", mnames [mi], tcounts [tc], tlens [tl]))
+				{	int n = tcounts [tc] ; Ck *cks = calloc (n, sizeof (Ck)) ;
+					for (int i = 0 ; i < n ; i++) { char id [8] ; snprintf (id, sizeof (id), "z%03d", i) ; ck_make (&cks [i], id, tlens [tl], i + tl) ; }
+					vl_root_count (mnames [mi]) ; chunk_case (mi, cks, n, 0, 0, -1, (long) n * (tlens [tl] + 12) >= 60000 ? "total>=60K" : "total") ; free_cks (cks, n) ; free (cks) ; vl_end (1, tc * 6 + tl) ;
 					}
 			}
 		}
